@@ -123,6 +123,9 @@ func (e *Env) Run(root string, c Ctx) *Observation {
 		"GOMODCACHE=" + goModCache(),
 		"GOPROXY=off", "GOSUMDB=off", "GOTOOLCHAIN=local", "GOFLAGS=",
 		"GOTELEMETRY=off",
+		// a shell exports the logical working directory; without it a symlinked
+		// cwd would be invisible to the process (os.Getwd falls back to getcwd)
+		"PWD=" + subst(c.Cwd, root),
 	}
 	// GOMAXPROCS is inherited by the `go list` child too. Unspecified means 2:
 	// 16 workers x 16 threads x 2 processes only thrash the machine.
